@@ -74,15 +74,17 @@ Fixpoint parse_num (base : N) (l : text) (acc : N) : N * text :=
   end.
 Fixpoint drop_space (l : text) : text :=
   match l with c :: r => if is_space c then drop_space r else l | [] => [] end.
+Definition starts (c : byte) (l : text) : option text :=
+  match l with x :: r => if x =? c then Some r else None | [] => None end.
 Definition strtoll (l : text) : option (Z * text) :=
   let l1 := drop_space l in
-  let '(neg, l2) := match l1 with 45 :: r => (true, r) | 43 :: r => (false, r) | _ => (false, l1) end in
-  let '(base, l3) :=
-    match l2 with
-    | 48 :: x :: h :: r => if ((x =? 120) || (x =? 88)) && valid_digit 16 h then (16, h :: r) else (8, l2)
-    | 48 :: _ => (8, l2)
-    | _ => (10, l2)
-    end in
+  let neg := match l1 with c :: _ => c =? 45 | [] => false end in
+  let l2 := match l1 with c :: r => if (c =? 45) || (c =? 43) then r else l1 | [] => [] end in
+  let is_hex := match l2 with
+                | c :: x :: h :: _ => (c =? 48) && ((x =? 120) || (x =? 88)) && valid_digit 16 h
+                | _ => false end in
+  let base := if is_hex then 16 else match l2 with c :: _ => if c =? 48 then 8 else 10 | [] => 10 end in
+  let l3 := if is_hex then skipn 2 l2 else l2 in
   match l3 with
   | [] => None
   | c :: _ =>
@@ -137,9 +139,9 @@ Fixpoint quoted_body (fuel : nat) (l : text) (acc : list byte) (n : N) (out_size
     end
   end.
 Definition parse_quoted_string (l : text) (out_size : N) : (list byte * text) + bool :=
-  match skip_ws l with
-  | 34 :: r => quoted_body (S (length r)) r [] 0 out_size
-  | _ => inr false end.
+  match starts 34 (skip_ws l) with
+  | Some r => quoted_body (S (length r)) r [] 0 out_size
+  | None => inr false end.
 
 (* ------------------------------------------------------------------------------------------------ the oracle *)
 Section WithTable.
@@ -432,12 +434,12 @@ Definition line_end (p : text) : bool :=
 Definition process_line (st : astate) (line : text) : astate + N :=
   let p := skip_ws line in
   if line_end p then inl st else
-  match p with
-  | 46 :: p1 =>
+  match starts 46 p with
+  | Some p1 =>
       match parse_identifier p1 directive_buf with
       | None => inr asm_err_syntax
       | Some (d, p2) => do_directive st d p2 end
-  | _ =>
+  | None =>
       let instr :=
         if negb (a_in_fn st) then inr asm_err_no_function else
         match parse_identifier p mnemonic_buf with
@@ -445,8 +447,8 @@ Definition process_line (st : astate) (line : text) : astate + N :=
         | Some (mn, rest) => asm_instruction st mn rest end in
       match parse_identifier p lbl_buf with
       | Some (ident, p2) =>
-          match skip_ws p2 with
-          | 58 :: p3 =>
+          match starts 58 (skip_ws p2) with
+          | Some p3 =>
               if negb (a_in_fn st) then inr asm_err_no_function else
               match add_label st ident with
               | None => inr asm_err_duplicate_label
@@ -457,7 +459,7 @@ Definition process_line (st : astate) (line : text) : astate + N :=
                   | None => inr asm_err_syntax
                   | Some (mn, rest) => asm_instruction st1 mn rest end
               end
-          | _ => instr end
+          | None => instr end
       | None => instr end
   end.
 
